@@ -34,6 +34,8 @@ type Op struct {
 	Mtime  uint32 `json:"mtime,omitempty"` // SETATTR: set mtime to client time (seconds), 0 = leave
 	Atime  uint32 `json:"atime,omitempty"`
 	NoSize bool   `json:"nosize,omitempty"` // SETATTR without size
+	Perm   int    `json:"perm,omitempty"`   // SETATTR: bits 1 = set mode, 2 = set uid, 4 = set gid
+	STime  int    `json:"stime,omitempty"`  // SETATTR: bits 1 = mtime, 2 = atime set to the server's time
 	Mode   int    `json:"mode,omitempty"`   // CREATE: 0 unchecked, 1 guarded, 2 exclusive
 	As     string `json:"as,omitempty"`     // variable to bind the returned handle to
 }
@@ -71,6 +73,12 @@ func (o Op) String() string {
 		}
 		if o.Atime != 0 {
 			w(",atime=%d", o.Atime)
+		}
+		if o.Perm != 0 {
+			w(",perm-bits=%d", o.Perm)
+		}
+		if o.STime != 0 {
+			w(",server-time-bits=%d", o.STime)
 		}
 		w(")")
 	case "READDIR":
@@ -316,6 +324,21 @@ func Exec(srv nfstypes.NFS_PROGRAM_NFS_V3_handler, o Op, h, h2 []byte) Reply {
 		if o.Atime != 0 {
 			a.New_attributes.Atime.Set_it = nfstypes.SET_TO_CLIENT_TIME
 			a.New_attributes.Atime.Atime = nfstypes.Nfstime3{Seconds: nfstypes.Uint32(o.Atime), Nseconds: 9}
+		}
+		if o.Perm&1 != 0 {
+			a.New_attributes.Mode = nfstypes.Set_mode3{Set_it: true, Mode: 0640}
+		}
+		if o.Perm&2 != 0 {
+			a.New_attributes.Uid = nfstypes.Set_uid3{Set_it: true, Uid: 1000}
+		}
+		if o.Perm&4 != 0 {
+			a.New_attributes.Gid = nfstypes.Set_gid3{Set_it: true, Gid: 1000}
+		}
+		if o.STime&1 != 0 {
+			a.New_attributes.Mtime.Set_it = nfstypes.SET_TO_SERVER_TIME
+		}
+		if o.STime&2 != 0 {
+			a.New_attributes.Atime.Set_it = nfstypes.SET_TO_SERVER_TIME
 		}
 		x := srv.NFSPROC3_SETATTR(a)
 		r.Status = uint32(x.Status)
